@@ -23,7 +23,7 @@ PROP = "C02"
 
 EVIDENCE = {
     "rule": "one evaluation = one scenario document (mesh, region flags, field kind, form, integrand seed, pool / thread schedules, fault); non-trivial = at least one parallel evaluation ran under a simulated pool with >1 job or under a thread schedule with >= 2 context switches, or a worker fault fired; distinct = distinct (field kind, form kind, flags, pool configuration or schedule digest)",
-    "probes_expected": ["pool:njobs>1", "pool:fallback-np-einsum", "threads:switches", "fault:pool_job", "fault:thread_body", "uniform-broadcast", "absent-block", "out-reuse", "values-passthrough", "mode3", "hess-form"],
+    "probes_expected": ["pool:njobs>1", "pool:fallback-np-einsum", "threads:switches", "fault:pool_job", "fault:thread_body", "uniform-broadcast", "absent-block", "out-reuse", "values-passthrough", "mode3", "hess-form", "form-after-region-reload"],
     "components": {
         "real": ["felupe.assembly (all of it)", "einsumt chunking logic", "numpy einsum", "scipy.sparse"],
         "simulated": ["einsumt thread pool (SimPool: size knob, seeded job order, failing job)", "threading.Thread in the expression API (SimThreads: baton passing at sys.monitoring LINE / STORE_SUBSCR events)"],
@@ -95,6 +95,10 @@ def generate(seed, tier, k):
             sch.append({"policy": "random", "seed": r.randrange(1 << 30)})
         f["schedules"] = sch
         f["basis_parallel"] = r.random() < 0.3
+        # history on one Form object: the region is reloaded in place (mesh.update + region.reload)
+        # and the same form is assembled again with the same field container
+        f["reload"] = r.random() < 0.3 and not doc["region"].get("uniform") and fk != "Mixed2"
+        f["reload_seed"] = r.randrange(1 << 30)
         if r.random() < 0.2:
             f["fail_call"] = r.randrange(0, 6)
         doc["form"] = f
@@ -478,6 +482,24 @@ def run_form(doc, log):
     else:
         raise ValueError(kind)
 
+    def reference():
+        if funs is not None:
+            if bil:
+                return refmodel.assemble_bilinear(fields, fields, region.dV, funs, grad_v, grad_u, pairs, symmetric_fill=len(fields) > 1)
+            return refmodel.assemble_linear(fields, region.dV, funs, grad_v)
+        H_ = region.d2hdXdX
+        G_ = np.zeros((H_.shape[0], d, d, nd, nd, nq, nc))
+        for i_ in range(d):
+            G_[:, i_, i_] = H_
+        val_ = np.einsum("aiIJKqc,IJKLMNqc,bkLMNqc,qc->caibk", G_, T, G_, region.dV)
+        dofs_ = d * mesh.cells[:, :, None] + np.arange(d)[None, None, :]
+        n_ = mesh.npoints * d
+        ref_ = np.zeros((n_, n_))
+        rr_ = np.broadcast_to(dofs_[:, :, :, None, None], val_.shape)
+        cl_ = np.broadcast_to(dofs_[:, None, None, :, :], val_.shape)
+        np.add.at(ref_, (rr_.ravel(), cl_.ravel()), val_.ravel())
+        return ref_
+
     # reference -------------------------------------------------------------------------------
     if funs is not None:
         if bil:
@@ -591,8 +613,25 @@ def run_form(doc, log):
         if not ok:
             raise Violation(PROP, "schedule-independence", f"{site_p} under schedule {sc}: differs from parallel=False (rel {rel:.2e})", site=site_p)
         log.count("form-schedule-compared")
+    # history on the Form object: reload the region in place, assemble the same form again --------
+    if f.get("reload"):
+        frm, _ = build(CallCounter())
+        first = dense(frm.assemble(parallel=False, **akw))
+        prng = np.random.default_rng(f["reload_seed"])
+        span = mesh.points.max(0) - mesh.points.min(0)
+        newp = mesh.points + 0.04 * span.min() / max(doc["mesh"]["n"]) * prng.uniform(-1, 1, mesh.points.shape)
+        mesh.update(points=newp, callback=region.reload)
+        if np.any(region.dV <= 0):
+            raise Discard("invalid-mesh-after-reload")
+        ref2 = reference()
+        scale2 = float(np.abs(ref2).max()) + 1e-300
+        again = dense(frm.assemble(v=field, **({"u": field} if bil else {}), parallel=False, **akw))
+        ok, rel = close_exact_twin(again, ref2, rtol=1e-11, atol=1e-12 * scale2)
+        if not ok:
+            raise Violation(PROP, "form-vs-array", f"a Form assembled again after the region was reloaded in place does not give the sum for the new geometry (rel {rel:.2e})", site=f"Form.assemble[{kind},after-region-reload]")
+        log.count("form-after-region-reload")
     return {
-        "signature": f"form|{doc['fieldkind']}|{kind}|sym{int(f['symmetric'])}{int(sym_flag)}|{mesh.cell_type}|u{int(bool(doc['region'].get('uniform')))}|{sorted(digests)[:2]}",
+        "signature": f"form|{doc['fieldkind']}|{kind}|sym{int(f['symmetric'])}{int(sym_flag)}|{mesh.cell_type}|u{int(bool(doc['region'].get('uniform')))}|{sorted(digests)[:2]}|r{int(bool(f.get('reload')))}",
         "nontrivial": switches >= 2 or bool(fired),
         "faults_fired": fired,
         "sim": {"thread_schedules": len(f["schedules"]), "interleavings_distinct": len(digests), "context_switches": switches, "max_threads": nthreads},
